@@ -160,3 +160,24 @@ Theorem C12_redundant_guards :
 Proof. exact c12_redundant_guards. Qed.
 Print Assumptions C12_redundant_guards.
 
+Theorem C12_path_mt_entry_total :
+  forall (P : prim) (l : list wpart),
+  prim_ok P ->
+  (exists z, path_mt_entry all_guards P l = Ok (Some z)) \/
+  (exists t, path_mt_entry all_guards P l = Err t).
+Proof. exact c12_path_mt_entry_total. Qed.
+Print Assumptions C12_path_mt_entry_total.
+
+Theorem C12_rdfentry_key_value_total :
+  forall (P : prim) (s : list tok),
+  prim_ok P -> p_prime P <> 0 ->
+  (exists k v, rdfentry_key_value all_guards P s = Ok (Some k, Some v)) \/
+  (exists t, rdfentry_key_value all_guards P s = Err t).
+Proof. exact c12_rdfentry_key_value_total. Qed.
+Print Assumptions C12_rdfentry_key_value_total.
+
+Theorem C12_empty_key_part_needs_the_guard :
+  exists P l, class_of (path_mt_entry (g_without 0) P l) = CPanic.
+Proof. exact c12_empty_key_part_needs_the_guard. Qed.
+Print Assumptions C12_empty_key_part_needs_the_guard.
+
